@@ -32,6 +32,8 @@ func (vc *VC) instr(in ssa.Instruction, h *Heap) {
 		et := x.Type().Underlying().(*types.Pointer).Elem()
 		if id, ok := vc.baseType(et); ok {
 			dyn = id
+		} else if id, ok := vc.backingType(et); ok {
+			dyn = id
 		}
 		o := vc.alloc(h, vc.curR, dyn)
 		vc.vals[x] = []string{"(mkptr " + o + " 0 0)"}
@@ -128,7 +130,8 @@ func (vc *VC) instr(in ssa.Instruction, h *Heap) {
 	case *ssa.Slice:
 		vc.sliceOp(x, h)
 	case *ssa.MakeSlice:
-		o := vc.alloc(h, vc.curR, 0)
+		dyn, _ := vc.backingType(x.Type())
+		o := vc.alloc(h, vc.curR, dyn)
 		vc.setVal(x, []string{"(mkslice " + o + " 0 0 " + vc.val1(x.Len) + " " + vc.val1(x.Cap) + ")"})
 	case *ssa.MakeMap:
 		o := vc.alloc(h, vc.curR, 0)
@@ -278,7 +281,7 @@ func (vc *VC) unop(x *ssa.UnOp, h *Heap) {
 		}
 		terms := vc.load(*h, a, x.Type())
 		vc.setVal(x, terms)
-		vc.assumeRanges("true", vc.vals[x], x.Type(), *h)
+		vc.assumeLoadRanges(vc.vals[x], x.Type(), *h)
 	case token.SUB:
 		v := vc.val1(x.X)
 		if isFloat(x.Type()) {
